@@ -409,6 +409,111 @@ fn e2e_scenario(out: &mut Out, n: usize, offset_ms: u64, clients: usize, inject:
     out.count(&format!("shutdown wall time request->exit (glonaxd): {}", if ms <= 20 { "<=20 ms" } else if ms <= 100 { "<=100 ms" } else if ms <= 1000 { "<=1 s" } else { ">1 s" }));
 }
 
+/// C20 through the REAL daemon: glonaxd (built with glonax/verif) started on a generated configuration with 1..3 networks
+/// whose driver lists have 0..3 entries (known and unknown pairs); per network: the address claim it announces at
+/// start-up, its answer to a SoftwareIdentification request and to an AddressClaimed request addressed to it.
+pub fn daemon_c20(out: &mut Out, tier: &str, rng: &mut Rng) {
+    use std::io::Write;
+    if !std::path::Path::new(GLONAXD).exists() {
+        out.note("glonaxd binary not built: daemon-level C20 part skipped".to_string());
+        return;
+    }
+    let lists: Vec<Vec<DriverCfg>> = vec![
+        vec![],
+        vec![DriverCfg { da: 0x55, sa: None, timeout: None, vendor: "acme".into(), product: "widget".into() }],
+        vec![DriverCfg { da: 0x4A, sa: None, timeout: Some(250), vendor: "laixer".into(), product: "hcu".into() }],
+        vec![DriverCfg { da: 0x00, sa: Some(0x11), timeout: Some(250), vendor: "volvo".into(), product: "d7e".into() }, DriverCfg { da: 0x12, sa: None, timeout: Some(1000), vendor: "laixer".into(), product: "vcu".into() }],
+        vec![DriverCfg { da: 0x6A, sa: None, timeout: Some(1000), vendor: "kübler".into(), product: "encoder".into() }, DriverCfg { da: 0x7A, sa: None, timeout: None, vendor: "kübler".into(), product: "inclinometer".into() }],
+    ];
+    let runs = if tier == "thorough" { 10 } else { 3 };
+    for n in 0..runs {
+        let nets = 1 + (n % 3);
+        let mut cfgs: Vec<NetCfg> = vec![];
+        for k in 0..nets {
+            // every run has at least one network WITHOUT units
+            let l = if k == n % nets { lists[0].clone() } else { rng.pick(&lists).clone() };
+            cfgs.push(NetCfg { address: *rng.pick(&[0x27u8, 0x9B, 0x01, 0xFD]), name: [rng.below(2048) as u32, rng.below(32) as u32, rng.below(8) as u32, rng.below(256) as u32, rng.below(128) as u32, rng.below(16) as u32, rng.below(8) as u32], drivers: l });
+        }
+        let dir = std::path::PathBuf::from(format!("/verif/.cache/e2e/c20-{}-{}", std::process::id(), n));
+        let _ = std::fs::remove_dir_all(&dir);
+        std::fs::create_dir_all(dir.join("bus")).unwrap();
+        let mut text = format!("mode = \"normal\"\n[unix_listener]\npath = \"{}\"\n[machine]\nid = \"00000000-0000-0000-0000-000000000000\"\ntype = \"Excavator\"\nmodel = \"LE240\"\nserial = \"0.0\"\n[engine]\nrpm_idle = 800\nrpm_max = 2100\n", dir.join("glonax.sock").display());
+        for (k, c) in cfgs.iter().enumerate() {
+            let ds: Vec<String> = c.drivers.iter().map(|d| format!("{{ da = {}, {}{}vendor = \"{}\", product = \"{}\" }}", d.da, d.sa.map_or(String::new(), |x| format!("sa = {}, ", x)), d.timeout.map_or(String::new(), |x| format!("timeout = {}, ", x)), d.vendor, d.product)).collect();
+            text += &format!("[[j1939]]\ninterface = \"vcd{}\"\naddress = {}\ndriver = [{}]\n[j1939.name]\nmanufacturer_code = {}\nfunction_instance = {}\necu_instance = {}\nfunction = {}\nvehicle_system = {}\nvehicle_system_instance = {}\nindustry_group = {}\n", k, c.address, ds.join(", "), c.name[0], c.name[1], c.name[2], c.name[3], c.name[4], c.name[5], c.name[6]);
+        }
+        let cfile = dir.join("glonax.conf");
+        std::fs::File::create(&cfile).unwrap().write_all(text.as_bytes()).unwrap();
+        let buses: Vec<Bus> = (0..nets).map(|k| Bus::attach_at(&dir.join("bus"), &format!("vcd{}", k))).collect();
+        let mut child = std::process::Command::new(GLONAXD)
+            .arg("--config").arg(&cfile).arg("--quiet")
+            .env("GLONAX_VERIF_BUS", dir.join("bus")).env_remove("GLONAX_VERIF_BUS_LOOPBACK")
+            .stdout(std::process::Stdio::null()).stderr(std::process::Stdio::null())
+            .spawn().expect("spawn glonaxd");
+        // start-up: collect what every network puts on its bus during the first 1.5 s (or until all have claimed + 200 ms)
+        let t0 = Instant::now();
+        let mut seen: Vec<Vec<[u8; 16]>> = vec![vec![]; nets];
+        let mut all_claimed_at: Option<Instant> = None;
+        while t0.elapsed() < Duration::from_millis(1500) {
+            for (i, b) in buses.iter().enumerate() {
+                seen[i].extend(b.sync());
+            }
+            let claimed = seen.iter().all(|v| v.iter().any(|r| (u32::from_le_bytes([r[0], r[1], r[2], r[3]]) >> 8) & 0xFF00 == 0xEE00));
+            if claimed && all_claimed_at.is_none() {
+                all_claimed_at = Some(Instant::now());
+            }
+            if let Some(t) = all_claimed_at {
+                if t.elapsed() > Duration::from_millis(200) {
+                    break;
+                }
+            }
+            std::thread::sleep(Duration::from_millis(5));
+        }
+        let mut toks = vec![];
+        for (i, c) in cfgs.iter().enumerate() {
+            let claim: Vec<String> = seen[i].iter().filter(|r| (u32::from_le_bytes([r[0], r[1], r[2], r[3]]) >> 8) & 0xFF00 == 0xEE00 && r[0] == c.address).map(|r| raw_to_frame_tok(r, c.address)).collect();
+            // the two requests, each answered (or not) within 300 ms
+            let mut answers = vec![];
+            for req in [65242u32, 60928] {
+                let _ = buses[i].sync();
+                buses[i].inject(&crate::auth::raw_of(crate::drv::make_id(6, 59904, c.address, 0x10), &[(req & 0xFF) as u8, (req >> 8) as u8, (req >> 16) as u8]));
+                let t = Instant::now();
+                let mut got: Vec<String> = vec![];
+                while t.elapsed() < Duration::from_millis(300) && got.is_empty() {
+                    for r in buses[i].sync() {
+                        let id = u32::from_le_bytes([r[0], r[1], r[2], r[3]]) & 0x1FFF_FFFF;
+                        let g = (id >> 8) & 0xFFFF;
+                        if (id & 0xFF) as u8 == c.address && (g == req || (req == 60928 && g & 0xFF00 == 0xEE00)) {
+                            got.push(raw_to_frame_tok(&r, c.address));
+                        }
+                    }
+                    std::thread::sleep(Duration::from_millis(2));
+                }
+                answers.push(if got.is_empty() { "-".to_string() } else { got.join(",") });
+            }
+            toks.push(format!("{}|{}|{}", if claim.is_empty() { "-".to_string() } else { claim.join(",") }, answers[0], answers[1]));
+        }
+        unsafe {
+            libc::kill(child.id() as i32, libc::SIGTERM);
+        }
+        let t1 = Instant::now();
+        while t1.elapsed() < Duration::from_secs(6) {
+            if let Ok(Some(_)) = child.try_wait() {
+                break;
+            }
+            std::thread::sleep(Duration::from_millis(2));
+        }
+        let _ = child.kill();
+        let _ = child.wait();
+        drop(buses);
+        let _ = std::fs::remove_dir_all(&dir);
+        for (c, t) in cfgs.iter().zip(toks.iter()) {
+            out.case(&format!("daemon {}", c.tok()), t, true);
+            out.count(&format!("real glonaxd: network with {} configured unit(s)", c.drivers.len()));
+        }
+    }
+}
+
 pub fn run(out: &mut Out, tier: &str, rng: &mut Rng) {
     let thorough = tier == "thorough";
     out.rule = "real glonax::Runtime: the three io services of glonaxd's run() and 0..3 networks as recording stubs, the termination request delivered at EVERY scheduling point of every schedule call (hook verif_sched: enter / guard / spawn / spawn2 / spawn3 x call index), after scheduling (0..40 ms later, idle or in a 40-command burst) directly and through a real SIGTERM handled by register_shutdown_signal, on current-thread and multi-thread tokio runtimes; observed: setup / teardown calls per service, whether wait_for_tasks returns within 4 s, silence afterwards. Then the real NetworkAuthority (1-2 networks, 0-3 hydraulic units each plus other units) under the real Runtime on emulated buses: frames seen between the request and the join, frames after the join. Then authority-level teardown at any point of its life. Non-trivial = all".into();
